@@ -93,6 +93,8 @@ theorem C11_no_panic (pre ws post : List JoiningType)
   ⟨_, arabicJoining_eq_go pre ws post h1 h2 h3, go_length _ _ _⟩
 
 example : Resolved [.D, .T, .GroupAlaph] := by decide
+/-- non-vacuity: beh | reh, fatha, alaph | — : the reh joins the context beh, the alaph after reh is fin2 -/
+example : arabicJoining stateTable [.D] [.R, .T, .GroupAlaph] [] = .ok [FINA, NONE, FIN2] := rfl
 
 /-- **Automaton = spec.**  For all texts and all contexts of any length (as stored: the pre-context
     array is the reversed text), the actions computed by the joining pass are the forms of the
@@ -111,6 +113,9 @@ theorem C11_automaton_eq_spec_code (pre ws post : List JoiningType)
   rw [← List.map_reverse, List.map_reverse, map_toCode_ofCode h2, map_toCode_ofCode h3] at h
   rw [← h, ← List.map_reverse, map_toCode_ofCode (l := pre.reverse)]
   intro t ht; exact h1 t (List.mem_reverse.mp ht)
+
+example : Resolved [JoiningType.L, .T] ∧ Resolved [JoiningType.GroupDalathRish, .GroupAlaph, .U] := by decide
+example : forms [JT.L, .T] [JT.DalathRish, .Alaph, .U] [] = [Form.fina, .fin3, .none] := by decide
 
 /-- Through the API (`set_pre_context` / `set_post_context` keep `contextLength` = 5 characters):
     the result is the spec on the text with the kept parts of the contexts. -/
@@ -194,6 +199,8 @@ theorem C11_transparent_context (c d ws e f : List JoiningType)
   rw [arabicJoining_eq_go _ _ _ (resolved_insert_T h1) h2 (resolved_insert_T h3),
     arabicJoining_eq_go _ _ _ h1 h2 h3, preState_insert_T, go_after_insert_T]
 
+example : Resolved ([JoiningType.D] ++ [JoiningType.T]) ∧ Resolved ([] ++ [JoiningType.R]) := by decide
+
 /-- All at once: the result is determined by the text and contexts with every transparent
     character erased; transparent characters themselves get `NONE`. -/
 theorem C11_transparent_erase (pre ws post : List JoiningType)
@@ -204,6 +211,10 @@ theorem C11_transparent_erase (pre ws post : List JoiningType)
     arabicJoining_eq_go _ _ _ (resolved_filter h1) (resolved_filter h2) (resolved_filter h3)]
   simp only [Except.map]
   rw [preState_filter, ← go_filter]
+
+example : Resolved [JoiningType.T, .D] ∧ Resolved [JoiningType.D, .T, .T, .D, .T] ∧ Resolved [JoiningType.T, .R] := by
+  decide
+example : spread [JoiningType.D, .T, .T, .D, .T] [INIT, MEDI] = [INIT, NONE, NONE, MEDI, NONE] := rfl
 
 /-! ## Mongolian free variation selectors -/
 
